@@ -73,6 +73,9 @@ def c15_cases(tier, rng):
             c = CC(exts=exts); c.call("verify", hx(h)); hostile.append(c.case())
             c = CC(exts=exts); c.mail(h + b"@x"); hostile.append(c.case())
             c = CC(exts=exts); c.mail(b"s@x", dict(envid=h, auth=h)); hostile.append(c.case())
+            c = CC(exts=exts); c.mail(b"s@x", dict(auth=h)); hostile.append(c.case())      # each value alone: a refusal of one
+            c = CC(exts=exts); c.mail(b"s@x", dict(envid=h)); hostile.append(c.case())     # must not mask the other
+            c = CC(exts=exts); c.mail(b"s@x", dict(auth=b"u" + h + b"@d", size=3)); hostile.append(c.case())
             c = CC(exts=exts); c.mail(b"s@x"); c.rcpt(h); hostile.append(c.case())
             c = CC(exts=exts); c.mail(b"s@x"); c.rcpt(b"r@x", dict(orcpttype=b"RFC822", orcpt=h)); hostile.append(c.case())
             c = CC(exts=exts); c.mail(b"s@x"); c.rcpt(b"r@x", dict(orcpttype=b"UTF-8", orcpt=h, notify=[h])); hostile.append(c.case())
@@ -133,12 +136,16 @@ def c18_cases(tier, rng):
         for _ in range(150 if tier == "quick" else 1500):
             exts = rng.choice([[b"8BITMIME"], [], [b"PIPELINING", b"SIZE 100"], [b"8BITMIME", b"DSN"]])
             c = CC(lmtp=True, exts=exts)
+            seen = []
             for t in range(ntx):
                 c.mail(b"s%d@x" % t, rng.choice([None, None, dict(size=3)]))
                 acc = 0
                 for k in range(rng.randrange(1, 4)):
                     ok = rng.random() < 0.75
-                    c.rcpt(b"t%dr%d@x" % (t, k), reply=OK if ok else b"550 5.1.1 refused\r\n")
+                    # the same mailbox may be named twice in a transaction (and again in the next): one reply per accepted RCPT
+                    addr = rng.choice(seen) if seen and rng.random() < 0.3 else b"t%dr%d@x" % (t, k)
+                    seen.append(addr)
+                    c.rcpt(addr, reply=OK if ok else b"550 5.1.1 refused\r\n")
                     acc += ok
                 if acc == 0:
                     c.rcpt(b"t%dlast@x" % t); acc = 1
